@@ -248,7 +248,7 @@ func checkRemoveFirst(p *Prog, r *Report, pc *panicChecker) {
 		return
 	}
 	n := checkSpliceLoops(p, r, pc, f)
-	r.floor("splices in SoftCollection.Remove", n, 1)
+	r.count("splices in SoftCollection.Remove", n)
 	bf := pc.bf(f)
 	for _, s := range findSplices(bf) {
 		la, lo := bf.atom(s.lo)
